@@ -4,7 +4,7 @@ from engine import atoms
 from engine.rulelib import fnview
 from engine.cfg import render, strip_ref, peel, subexprs
 
-CRATES = ["lightning_signer", "lightning_storage_server", "vls_frontend", "vlsd", "vls_util", "vls_proxy"]
+CRATES = ["lightning_signer", "lightning_storage_server", "vls_frontend", "vlsd", "vls_util", "vls_proxy", "vls_persist"]
 LS = "lightning_signer::persist::"
 LSS = "lightning_storage_server::util::"
 
@@ -24,7 +24,10 @@ CLAIM = {
             "(every caller of ExternalPersist::get; today ExternalPersistWithHelper::init_state, an async state "
             "machine analysed as its coroutine body) sends the request only after new_nonce and can complete, or install "
             "fetched records, only through the true edge of check_hmac. The per-value checks inside the LSS client "
-            "(`PrivClient::get`) are decided only through remove_and_check_hmac (R17.1). Cryptographic strength is not decided.",
+            "(`PrivClient::get`) are decided only through remove_and_check_hmac (R17.1); (R17.5) at start-up the fetched "
+            "records reach the local store's own version/content comparison complete: the cloud-staged store's and "
+            "the persister's put_batch_unlogged hand the whole batch, element for element, to the local put_batch "
+            "(same rule as C16 R16.5). Cryptographic strength is not decided.",
     "note": "bitcoin_hashes HmacEngine semantics by name; values are not traced across await points",
     "technique": "static analysis: ordered-effect extraction (MAC input sequence) + sibling agreement + return-value provenance",
 }
@@ -37,6 +40,7 @@ def run(ctx):
     r172(ctx)
     r173(ctx)
     r174(ctx)
+    r175(ctx)
 
 
 def rpo(fv):
@@ -289,3 +293,8 @@ def r174(ctx):
             ctx.ob("R17.4", bool(ok_e) and not uses, f"{on}/uses-only-authenticated",
                    f"`{on}` stores fetched records (line {uses[0] if uses else 0}) before check_hmac succeeded",
                    where=f"{b.file}:{uses[0] if uses else gc.line}", sample="records are installed only after check_hmac == true")
+
+
+def r175(ctx):
+    from rules import C16
+    C16.r165(ctx, rid="R17.5", fns=C16.UNLOGGED[1:])
